@@ -8,7 +8,7 @@ CONSTANTS
   Delays = {1}
   WishItems = 2
   DefaultIval = 9
-  EnvOps = {"search", "cmd", "wlmsg", "remove", "reply"}
+  EnvOps = {"search", "cmd", "wlmsg", "remove", "reply", "rheld"}
   MaxOps = 7
   MaxTime = 6
   MaxTasks = 6
@@ -16,6 +16,8 @@ CONSTANTS
   UnsetGuard = TRUE
   RemoveCancels = TRUE
   SharedGen = TRUE
+  EmitBeforeClose = TRUE
+  MaxHeld = 2
 INVARIANT TypeOK
 INVARIANT DistinctTickets
 INVARIANT RegistryExact
